@@ -152,6 +152,13 @@ func liveIn(l *refl.Ledger, id types.Hash256) bool {
 // ledger; confirmed v2 inputs carry the ledger's state elements; and a block
 // assembled from it is valid.
 func checkPoolValid(node *kit.Node, L *refl.Ledger, salt uint64) (v1 []types.Transaction, v2 []types.V2Transaction, err error) {
+	// a reader owns what the v2 listing hands out (the manager deep-copies it):
+	// one that rewrites proofs, signatures and values in its copy must not
+	// show in what the pool reports next
+	scratch := node.CM.V2PoolTransactions()
+	for i := range scratch {
+		mutateV2(&scratch[i], i)
+	}
 	v1 = node.CM.PoolTransactions()
 	v2 = node.CM.V2PoolTransactions()
 	ms := consensus.NewMidState(L.State)
